@@ -520,6 +520,9 @@ func (p *RXParamSetupReqPayload) UnmarshalBinary(data []byte) error {
 	if err := p.DLSettings.UnmarshalBinary(data[0:1]); err != nil {
 		return err
 	}
+	// bit 7 of the DLSettings is RFU within the RXParamSetupReq (the OptNeg
+	// bit is only defined for the join-accept)
+	p.DLSettings.OptNeg = false
 	// append one block of empty bits at the end of the slice since the
 	// binary to uint32 expects 32 bits.
 	b := make([]byte, len(data))
